@@ -48,10 +48,12 @@ NormOp(o) ==
 
 (* ---- open modes (Lua 5.1 io.open / ISO C fopen) ------------------------ *)
 AllModes == {"r", "rb", "w", "wb", "a", "ab", "r+", "rb+", "w+", "wb+", "a+", "ab+"}
-(* "tmp" = io.tmpfile(): an update handle on a fresh, empty, anonymous file *)
-Readable(m)  == m \in {"r", "rb", "r+", "rb+", "w+", "wb+", "a+", "ab+", "tmp"}
-Writable(m)  == m \notin {"r", "rb"}
+(* "tmp" = io.tmpfile(): an update handle on a fresh, empty, anonymous file;            *)
+(* "out" = io.output(name): the default output file, opened like "w";                    *)
+(* "in"  = io.input(name): the default input file, opened like "r"                       *)
+Readable(m)  == m \in {"r", "rb", "r+", "rb+", "w+", "wb+", "a+", "ab+", "tmp", "in"}
+Writable(m)  == m \notin {"r", "rb", "in"}
 AppendM(m)   == m \in {"a", "ab", "a+", "ab+"}
-TruncM(m)    == m \in {"w", "wb", "w+", "wb+", "tmp"}
-MustExist(m) == m \in {"r", "rb", "r+", "rb+"}
+TruncM(m)    == m \in {"w", "wb", "w+", "wb+", "tmp", "out"}
+MustExist(m) == m \in {"r", "rb", "r+", "rb+", "in"}
 =============================================================================
